@@ -89,7 +89,9 @@ CLAIMED = {
          "compat path) plus a systematic one-preemption sweep around the spin->sleep transition; the runtime's deadlock/step-budget "
          "detectors give concrete failing schedules; qsbr's two-level waiting-flag handshake has its own TSO model and theorems "
          "(qsbr_no_lost_wakeup, qsbr_armed_visible); bp has no futex (poll loop) and is covered by the tie and the budget detector. "
-         "Partial: lock-order deadlock freedom and 'eventually' (fairness) are not theorems.",
+         "lock_order_deadlock_free (Gp/Locks.lean: the wait-for graph of rcu_gp_lock / rcu_registry_lock has no cycle, chains <= 2, for any "
+         "number of synchronize_rcu callers and (un)registering threads; discipline tied by the LOCK/UNLOCK events of the trace). "
+         "Partial: 'eventually' needs a fair scheduler; bp's init_lock is outside the lock model.",
     note="Trusted: Lean kernel; x86-TSO + futex + sys_membarrier contracts; fair scheduler for 'eventually'; the abstract handshake "
          "models are related to the code by the event-level replay on explored schedules only.",
     technique="Lean 4 inductive-invariant proofs (TSO futex handshake, wait-node hand-over) + event-level trace refinement with fault injection and systematic preemption sweep",
